@@ -13,6 +13,7 @@ generated, since order is the interesting input.
 import Daac.Props.C03
 import Daac.Proofs.SpecProps
 import Daac.Proofs.Rung2
+import Daac.Proofs.Rung2LF
 namespace Daac.Props.C04
 open Daac
 variable {V : Type} [DecidableEq V]
@@ -64,5 +65,14 @@ theorem leftmost_first_correct_build_bytewise (nfb : Nat) (Ps : List (Pat V)) (h
     (hb : buildDA .bytewise ⟨2, nfb⟩ (Ps.map lpOf) = .ok da) (h : List Nat) (hh : ∀ b ∈ h, b < 256) :
     ∃ l, lmAll da h = .ok (l, 0) ∧ l.map (·.1) = specLF Ps h :=
   bytewise_leftmost_first_correct nfb Ps hV hbytes da hb h hh
+
+
+/-- **Full strength in the model, char-wise**: every valid ordered collection of UTF-8 patterns,
+every valid UTF-8 haystack, byte offsets. -/
+theorem leftmost_first_correct_build_charwise (nfb : Nat) (Q : List (List Nat × V)) (hQ : ScalarPats Q)
+    (hQ0 : Q ≠ []) (hnd : (Q.map (·.1)).Nodup) (da : DA V)
+    (hb : buildDA .charwise ⟨2, nfb⟩ (Q.map charPat) = .ok da) (t : List Nat) (ht : Scalars t) :
+    ∃ l, lmAll da (encAll t) = .ok (l, 0) ∧ l.map (·.1) = specLF (Q.map bytePat) (encAll t) :=
+  charwise_leftmost_first_correct nfb Q hQ hQ0 hnd da hb t ht
 
 end Daac.Props.C04
